@@ -1482,7 +1482,13 @@ class Interp:
         from . import source
         self.loop_nodes = {**source.loops_in(fn_node), **self.loop_nodes}
         body = fn_node.body
-        if stmt is not None:
+        if callable(stmt):
+            # region: from the first top-level statement satisfying the predicate to the end of the body
+            idx = [i for i, s_ in enumerate(body) if stmt(s_)]
+            if not idx:
+                raise Unsupported('region start statement not found')
+            body = body[idx[0]:]
+        elif stmt is not None:
             if stmt not in self.loop_nodes:
                 raise Unsupported(f'statement selector {stmt} not found')
             body = [self.loop_nodes[stmt]]
